@@ -200,3 +200,24 @@ def het_cov(t, x):
     d = het_link(t.kind, h)  # N Dk
     Ak = A[:, : t.Dk]
     return (A @ A.T)[None] + np.einsum("ik,nk,jk->nij", Ak, d, Ak)
+
+
+def joint_truth(tc, tp):
+    """all (r_cond, r_x) combinations in the documented layout r_cond*R_x + r_x.
+    returns Truth(mu_xy, Sigma_xy, mu_y, Sigma_y, M, b, Sigma_c, mu_x, Sigma_x) with leading
+    axis R_cond*R_x."""
+    Rc, Dy, Dx = tc.M.shape
+    Rx = tp.mu.shape[0]
+    M = np.repeat(tc.M, Rx, axis=0)
+    b = np.repeat(tc.b, Rx, axis=0)
+    Sc = np.repeat(tc.Sigma, Rx, axis=0)
+    mux = np.tile(tp.mu, (Rc, 1))
+    Sx = np.tile(tp.Sigma, (Rc, 1, 1))
+    muy = np.einsum("rab,rb->ra", M, mux) + b
+    C = np.einsum("rab,rbc->rac", M, Sx)  # cov(y, x)
+    Sy = Sc + np.einsum("rab,rcb->rac", C, M)
+    Sy = 0.5 * (Sy + np.swapaxes(Sy, 1, 2))
+    Sxy = np.concatenate([np.concatenate([Sx, np.swapaxes(C, 1, 2)], axis=2),
+                          np.concatenate([C, Sy], axis=2)], axis=1)
+    return Truth(mu_xy=np.concatenate([mux, muy], axis=1), Sigma_xy=Sxy, mu_y=muy, Sigma_y=Sy,
+                 M=M, b=b, Sigma_c=Sc, mu_x=mux, Sigma_x=Sx, C=C)
